@@ -36,6 +36,7 @@ import (
 
 	imodels "github.com/influxdata/influxdb/models"
 	"github.com/influxdata/kapacitor"
+	"github.com/influxdata/kapacitor/pipeline"
 
 	"verifharness/kit"
 )
@@ -83,6 +84,8 @@ func parseChain(s string) ([]nodeSpec, error) {
 		}
 		switch ns.kind {
 		case "from", "where", "post", "alert", "udf", "loop":
+		case "union", "join":
+			return nil, fmt.Errorf("%s is only allowed as the head of a `=` part", ns.kind)
 		case "influx", "fail", "barrier", "pbarrier", "barriernd":
 			if len(p) != 2 {
 				return nil, fmt.Errorf("%s needs an argument", ns.kind)
@@ -104,6 +107,7 @@ type outInfo struct {
 }
 
 type result struct {
+	walk    string // fork / merge topologies: the declaration indexes of the nodes in the task's WALK order
 	acc     int
 	stopres string
 	census  int
@@ -116,6 +120,9 @@ func (r result) String() string {
 	o := "-"
 	if len(r.outs) > 0 {
 		o = strings.Join(r.outs, ",")
+	}
+	if r.walk != "" {
+		return fmt.Sprintf("%d %s %d %s %d %d %s", r.acc, r.stopres, r.census, o, r.late, r.nodeErr, r.walk)
 	}
 	return fmt.Sprintf("%d %s %d %s %d %d", r.acc, r.stopres, r.census, o, r.late, r.nodeErr)
 }
@@ -134,14 +141,27 @@ func mkPoints(from, to int) []imodels.Point {
 }
 
 // parseTopology reads `prefix;branch;branch…` (a fork: every branch hangs below the last node of the prefix,
-// declared in this order) or a plain chain. It returns all nodes in declaration order (= node index - 1) and,
-// per node, whether it is the first node of a branch.
-func parseTopology(chainS string) (all []nodeSpec, branchStart []bool, fork bool, err error) {
+// declared in this order), optionally followed by `;=union,tail…` / `;=join,tail…` (all branches are merged again by a
+// union / join node, several PARENTS, followed by the tail chain), or a plain chain. It returns all nodes in
+// declaration order (= node index - 1), per node whether it is the first node of a branch, and the index (in `all`) of
+// the merging node (-1: none).
+func parseTopology(chainS string) (all []nodeSpec, branchStart []bool, fork bool, merge int, err error) {
 	parts := strings.Split(chainS, ";")
+	merge = -1
 	for pi, part := range parts {
 		var ns []nodeSpec
 		if pi == 0 {
 			ns, err = parseChain(part)
+		} else if strings.HasPrefix(part, "=") {
+			toks := strings.SplitN(part[1:], ",", 2)
+			if pi != len(parts)-1 || pi < 3 || len(toks) != 2 || (toks[0] != "union" && toks[0] != "join") {
+				return nil, nil, false, -1, fmt.Errorf("bad merge part %q", part)
+			}
+			ns, err = parseChain("from," + toks[1])
+			if err == nil {
+				ns = append([]nodeSpec{{kind: toks[0]}}, ns[1:]...)
+				merge = len(all)
+			}
 		} else {
 			ns, err = parseChain("from," + part)
 			if err == nil {
@@ -149,24 +169,37 @@ func parseTopology(chainS string) (all []nodeSpec, branchStart []bool, fork bool
 			}
 		}
 		if err != nil || len(ns) == 0 {
-			return nil, nil, false, fmt.Errorf("bad topology %q: %v", chainS, err)
+			return nil, nil, false, -1, fmt.Errorf("bad topology %q: %v", chainS, err)
 		}
 		for j, x := range ns {
 			all = append(all, x)
-			branchStart = append(branchStart, pi > 0 && j == 0)
+			branchStart = append(branchStart, pi > 0 && j == 0 && merge < 0)
 		}
 	}
-	return all, branchStart, len(parts) > 1, nil
+	return all, branchStart, len(parts) > 1, merge, nil
 }
 
 func runCase(chainS, stopKind, class string, n int, stopBound time.Duration) (res result, err error) {
-	chain, branchStart, isFork, err := parseTopology(chainS)
+	chain, branchStart, isFork, merge, err := parseTopology(chainS)
 	if err != nil {
 		return res, err
+	}
+	if merge >= 0 {
+		for j := range chain[:merge] {
+			if chain[j].kind == "influx" {
+				return res, fmt.Errorf("influxDBOut cannot feed a union/join")
+			}
+		}
 	}
 	key := fmt.Sprintf("c%d", atomic.AddInt64(&caseSeq, 1))
 	hs := sink()
 	defer hs.unregister("/" + key + "/")
+	// gatedslow = gated with a writer that pauses between its chunks (the periodic / idle timers of a barrier node fire
+	// while the pipeline is still filling up, so their control messages end up inside the blocked edges)
+	slowWriter := class == "gatedslow"
+	if slowWriter {
+		class = "gated"
+	}
 	gateOpen := class != "gated"
 	g := newGate(gateOpen)
 	fi := &fakeInflux{clients: map[string]*sinkTarget{}}
@@ -177,12 +210,34 @@ func runCase(chainS, stopKind, class string, n int, stopBound time.Duration) (re
 	} else {
 		sb.WriteString("stream\n")
 	}
+	nbranch := 0
+	idField := "i" // below a join node the fields are prefixed with the parent's name
 	for j, ns := range chain {
 		idx := j + 1
 		if branchStart[j] {
-			sb.WriteString("p\n")
+			nbranch++
+			if merge >= 0 {
+				fmt.Fprintf(&sb, "var b%d = p\n", nbranch)
+			} else {
+				sb.WriteString("p\n")
+			}
 		}
 		switch ns.kind {
+		case "union", "join":
+			// several PARENTS: the branches b1 … bk are merged again (edge.multiConsumer)
+			var others, names []string
+			for b := 2; b <= nbranch; b++ {
+				others = append(others, fmt.Sprintf("b%d", b))
+			}
+			for b := 1; b <= nbranch; b++ {
+				names = append(names, fmt.Sprintf("'%c'", 'a'+b-1))
+			}
+			if ns.kind == "union" {
+				fmt.Fprintf(&sb, "b1\n  |union(%s)\n", strings.Join(others, ", "))
+			} else {
+				fmt.Fprintf(&sb, "b1\n  |join(%s).as(%s)\n", strings.Join(others, ", "), strings.Join(names, ", "))
+				idField = "a.i"
+			}
 		case "from":
 			sb.WriteString("  |from().measurement('m')\n")
 		case "where":
@@ -198,7 +253,7 @@ func runCase(chainS, stopKind, class string, n int, stopBound time.Duration) (re
 			path := fmt.Sprintf("/%s/%d/a", key, idx)
 			hs.register(path, t)
 			outs = append(outs, outInfo{idx, t})
-			fmt.Fprintf(&sb, "  |alert().message('{{ index .Fields \"i\" }}').details('').crit(lambda: TRUE).post('http://%s%s')\n", hs.addr, path)
+			fmt.Fprintf(&sb, "  |alert().message('{{ index .Fields \"%s\" }}').details('').crit(lambda: TRUE).post('http://%s%s')\n", idField, hs.addr, path)
 		case "influx":
 			t := &sinkTarget{rec: newOutRec(), gate: g}
 			fi.clients[fmt.Sprintf("w%d", idx)] = t
@@ -245,6 +300,16 @@ func runCase(chainS, stopKind, class string, n int, stopBound time.Duration) (re
 		return res, fmt.Errorf("start: %v\n%s", err, sb.String())
 	}
 
+	if isFork {
+		// the order in which ExecutingTask.link / start / stop walk the nodes, and in which a parent's `outs` are linked
+		var ids []string
+		_ = et.Task.Pipeline.Walk(func(n pipeline.Node) error {
+			ids = append(ids, strconv.Itoa(int(n.ID())))
+			return nil
+		})
+		res.walk = "w:" + strings.Join(ids, ".")
+	}
+
 	// ---- write the points: a point is ACCEPTED once its WritePoints call has returned nil
 	var accepted int64
 	writerDone := make(chan struct{})
@@ -260,11 +325,14 @@ func runCase(chainS, stopKind, class string, n int, stopBound time.Duration) (re
 				return
 			}
 			atomic.AddInt64(&accepted, int64(j-i))
+			if slowWriter {
+				time.Sleep(time.Millisecond)
+			}
 		}
 	}()
 	select {
 	case <-writerDone:
-	case <-time.After(10 * time.Second):
+	case <-time.After(20 * time.Second):
 		// the class asked for more points than the pipeline can hold while gated: not a valid case
 		g.Open()
 		<-writerDone
